@@ -120,7 +120,7 @@ pub fn run(ctx: &Ctx) {
     ctx.explore(
         "housekeeping-classic",
         "real handle_housekeeping ticks (mode chosen per tick, arbitrary spacing) on 1..3 real links whose windows were depressed by real NAK packets; classic ticks must leave every window of a link that stays connected unchanged; non-trivial = >=1 classic tick on a link below 60000 that stayed connected; enhanced ticks that raised a window are counted to show the check is not vacuous",
-        ctx.tier.pick(4_000, 100_000),
+        ctx.tier.pick(10_000, 150_000),
         strategy,
         |_| check,
     );
